@@ -16,15 +16,17 @@ import (
 
 // Label is one call, as printed by ToJson(act') of spec/WalletFund.tla.
 type Label struct {
-	Op  string `json:"op"`
-	Ver int    `json:"ver,omitempty"`
-	Amt int    `json:"amt,omitempty"`
-	Unc bool   `json:"unc,omitempty"`
-	N   int    `json:"n,omitempty"`
-	Min int    `json:"min,omitempty"`
-	T   int    `json:"t,omitempty"`
-	V   int    `json:"v,omitempty"`
-	Fpb int    `json:"fpb,omitempty"` // fee per byte for Redistribute (0 in the model-checked graph)
+	Op   string `json:"op"`
+	Ver  int    `json:"ver,omitempty"`
+	Amt  int    `json:"amt,omitempty"`
+	Unc  bool   `json:"unc,omitempty"`
+	N    int    `json:"n,omitempty"`
+	Min  int    `json:"min,omitempty"`
+	T    int    `json:"t,omitempty"`
+	V    int    `json:"v,omitempty"`
+	K    int    `json:"k,omitempty"`    // Lag: blocks the store falls behind
+	Fork int    `json:"fork,omitempty"` // Lag: of which a reorg abandons this many indexed (empty) blocks first
+	Fpb  int    `json:"fpb,omitempty"`  // fee per byte for Redistribute (0 in the model-checked graph)
 }
 
 type specDesc struct {
@@ -33,6 +35,7 @@ type specDesc struct {
 	Ins  []int `json:"ins"`
 	Out  int   `json:"out"`
 	Fee  int   `json:"fee"`
+	Bl   int   `json:"bl"`
 	Made []struct {
 		ID int `json:"id"`
 		V  int `json:"v"`
@@ -76,7 +79,7 @@ func normDescs(ds []Desc) string {
 	for _, d := range ds {
 		made := append([][2]int{}, d.Made...)
 		sort.Slice(made, func(i, j int) bool { return made[i][0] < made[j][0] })
-		parts = append(parts, fmt.Sprintf("%d|%d|%v|%d|%d|%v", d.Tid, d.Ver, sortedInts(d.Ins), d.Out, d.Fee, made))
+		parts = append(parts, fmt.Sprintf("%d|%d|%v|%d|%d|%d|%v", d.Tid, d.Ver, sortedInts(d.Ins), d.Out, d.Fee, d.Bl, made))
 	}
 	sort.Strings(parts)
 	return strings.Join(parts, ";")
@@ -85,7 +88,7 @@ func normDescs(ds []Desc) string {
 func normSpecDescs(ds []specDesc) string {
 	var out []Desc
 	for _, d := range ds {
-		x := Desc{Tid: d.Tid, Ver: d.Ver, Ins: d.Ins, Out: d.Out, Fee: d.Fee}
+		x := Desc{Tid: d.Tid, Ver: d.Ver, Ins: d.Ins, Out: d.Out, Fee: d.Fee, Bl: d.Bl}
 		for _, m := range d.Made {
 			x.Made = append(x.Made, [2]int{m.ID, m.V})
 		}
@@ -127,6 +130,12 @@ func (r *run) observe(want *specObs, where string) error {
 		if got != w {
 			r.mismatch("replay:Obs:balance-"+name, fmt.Sprintf("%s: Balance.%s = %d, specification says %d", where, name, got, w))
 		}
+	}
+	if r.wd.lag > 0 && e["conf"].(int) != want.Conf && e["conf"].(int)+e["imm"].(int) == want.Conf+want.Imm {
+		// Balance() judges maturity by the manager's height, selection by the store's tip
+		r.mismatch("replay:Obs:balance-maturity-under-lag", fmt.Sprintf("%s: the store is %d blocks behind the chain manager: Balance reports spendable=%d confirmed=%d immature=%d, while SpendableOutputs / selection (and the specification) say spendable=%d confirmed=%d immature=%d",
+			where, r.wd.lag, e["sp"], e["conf"], e["imm"], want.Sp, want.Conf, want.Imm))
+		want = &specObs{Sp: e["sp"].(int), Conf: e["conf"].(int), Imm: e["imm"].(int), Unc: want.Unc, List: want.List}
 	}
 	chk("spendable", e["sp"].(int), want.Sp)
 	chk("confirmed", e["conf"].(int), want.Conf)
@@ -191,17 +200,30 @@ func (r *run) exec(a Label) (e ev, enabled bool, err error) {
 	case "Tick":
 		wd.tick()
 		e = ev{"op": "Tick"}
+	case "Lag":
+		if wd.lag > 0 || !wd.rewardAllowed() {
+			return nil, false, nil
+		}
+		e, err = wd.lagBegin(a.K, a.Fork)
+	case "CatchUp":
+		if wd.lag == 0 {
+			return nil, false, nil
+		}
+		e, err = wd.catchUp()
 	case "Mine":
-		if !wd.mineAllowed() {
+		if wd.lag > 0 || !wd.mineAllowed() {
 			return nil, false, nil
 		}
 		e, err = wd.mine()
 	case "Reward":
-		if !wd.rewardAllowed() {
+		if wd.lag > 0 || !wd.rewardAllowed() {
 			return nil, false, nil
 		}
 		e, err = wd.reward(a.V)
 	case "Restart":
+		if wd.lag > 0 {
+			return nil, false, nil
+		}
 		e, err = wd.restart()
 	default:
 		err = fmt.Errorf("unknown op %q", a.Op)
@@ -218,6 +240,9 @@ func (r *run) exec(a Label) (e ev, enabled bool, err error) {
 	}
 	if pn, _ := e["panic"].(bool); pn {
 		r.mismatch("replay:"+a.Op+":parents-panic", fmt.Sprintf("%s: collecting the unconfirmed parents of a wallet-funded transaction panicked in chain.Manager: %v", hx.JSON(a), e["msg"]))
+	}
+	if bb, ok := e["badbasis"].(string); ok {
+		r.mismatch("replay:"+a.Op+":basis-not-wallet-tip", fmt.Sprintf("%s with the store %d blocks behind the chain manager: %s", hx.JSON(a), wd.lag, bb))
 	}
 	if mo, _ := e["misordered"].(bool); mo {
 		r.mismatch("replay:Bcast:parent-order", fmt.Sprintf("%s: the pool rejected the funded transaction because the transaction set chain.Manager built for it lists a child before its parent: %v", hx.JSON(a), e["msg"]))
@@ -666,8 +691,27 @@ func driveRandom(r *run, rng *rand.Rand, outs []Out, prelude []Label, tag string
 			}
 			ticks++
 			a = Label{Op: "Tick"}
-		case x < 80:
+		case x < 76:
 			a = Label{Op: "Mine"}
+		case x < 80:
+			// the store falls behind the manager (sometimes through a reorg of blocks it had indexed)
+			if wd.lag > 0 {
+				a = Label{Op: "CatchUp"}
+				break
+			}
+			a = Label{Op: "Lag", K: pick(rng, 1, 2, 4, 5, 6, 8)}
+			if rng.Intn(3) == 0 && last["imm"].(int) == 0 && last["unc"].(int) == 0 && len(wd.cm.PoolTransactions())+len(wd.cm.V2PoolTransactions()) == 0 && wd.mineAllowed() && wd.rewardAllowed() {
+				// reorg variant: `fork` empty blocks are indexed first, then abandoned
+				a.Fork = 1 + rng.Intn(2)
+				for j := 0; j < a.Fork; j++ {
+					if _, _, err := r.exec(Label{Op: "Mine"}); err != nil {
+						return err
+					}
+					if err := r.observe(nil, tag); err != nil {
+						return err
+					}
+				}
+			}
 		case x < 84:
 			a = Label{Op: "Reward", V: 1 + rng.Intn(9)}
 		case x < 88:
@@ -687,12 +731,23 @@ func driveRandom(r *run, rng *rand.Rand, outs []Out, prelude []Label, tag string
 				a.N, a.Min = rng.Intn(2), rng.Intn(2) // argument errors
 			}
 		}
+		if wd.lag > 0 && (a.Op == "Mine" || a.Op == "Reward" || a.Op == "Restart") {
+			a = Label{Op: "CatchUp"} // chain events wait until the subscriber has caught up
+		}
 		_, enabled, err := r.exec(a)
 		if err != nil {
 			return fmt.Errorf("%s step %d %s: %w", tag, i, hx.JSON(a), err)
 		}
 		if !enabled {
 			continue
+		}
+		if err := r.observe(nil, tag); err != nil {
+			return err
+		}
+	}
+	if wd.lag > 0 {
+		if _, _, err := r.exec(Label{Op: "CatchUp"}); err != nil {
+			return err
 		}
 		if err := r.observe(nil, tag); err != nil {
 			return err
@@ -757,7 +812,7 @@ func TestSessions(t *testing.T) {
 				// Go-side findings of random sessions are judged by TLC from the trace; only
 				// unexpected errors are reported from here
 				for _, m := range r.mm {
-					if strings.HasSuffix(m.Sig, ":error") || strings.HasSuffix(m.Sig, ":parents-panic") {
+					if strings.HasSuffix(m.Sig, ":error") || strings.HasSuffix(m.Sig, ":parents-panic") || strings.HasSuffix(m.Sig, ":basis-not-wallet-tip") {
 						res.Mismatch(strings.Replace(m.Sig, "replay:", "trace:", 1), m.Desc, m.Replay)
 					}
 				}
